@@ -1154,3 +1154,40 @@ M("C10-server-keepalive-ignored", "C10", [(HS, '''        self.runtime.keepalive
   ["C10/const/server-keepalive"])
 M("C10-timeout-from-different-constant", "C10", [(DRIVE, '''            runtime.ping_timeout = Some(now + Duration::from_millis(ROUND_TRIP_TIMEOUT_MS));''', '''            runtime.ping_timeout = Some(now + Duration::from_millis(2 * ROUND_TRIP_TIMEOUT_MS));''')],
   ["C10/who/ping-timeout-armed/complete_flush"])
+
+# ---------------------------------------------------------------------------------------------- C15
+M("C15-lookahead-two-bytes", "C15", [(READER_RS, '''            self.read_bytes + 1
+        };''', '''            self.read_bytes + 2
+        };''')],
+  ["C15/look-ahead/unknown-length"])
+M("C15-commit-buffer-len", "C15", [(DRIVE, '''        let count = match connection.read(buffer).await {
+            Ok(count) => count,''', '''        let requested = buffer.len();
+        let count = match connection.read(buffer).await {
+            Ok(_) => requested,''')],
+  ["C15/read/commit-count"])
+M("C15-write-restarts-packet", "C15", [(DRIVE, '''        let count = match write_current(&mut self.io, &bytes[written..]).await {''', '''        let count = match write_current(&mut self.io, &bytes[written.min(1)..]).await {''')],
+  ["C15/write/resume-slice"])
+M("C15-available-off-by-one", "C15", [(READER_RS, '''            Some(length) => self.read_bytes >= length,''', '''            Some(length) => self.read_bytes > length,''')],
+  ["C15/read/available"])
+M("C15-take-reset-first", "C15", [(READER_RS, '''        let packet_length = *self.packet_length.as_ref().ok_or(Error::MalformedPacket)?;''', '''        let packet_length = self.packet_length.ok_or(Error::MalformedPacket)?.min(self.read_bytes);''')],
+  ["C15/take/slice"])
+M("C15-zero-read-retried", "C15", [(DRIVE, '''        if count == 0 {
+            return Err(Error::Disconnected);
+        }
+        packet_reader.commit(count);''', '''        if count == 0 {
+            continue;
+        }
+        packet_reader.commit(count);''')],
+  ["C15/read/zero-is-eof"])
+M("C15-write-all-skips-double", "C15", [(OUT, '''        bytes = &bytes[written..];
+    }
+    Ok(())''', '''        bytes = &bytes[written.min(bytes.len() - 1) + 1..];
+    }
+    Ok(())''')],
+  ["C15/write/all-cursor"])
+M("C15-probe-skipped-after-first", "C15", [(READER_RS, '''        if self.packet_length.is_none() {
+            self.probe_fixed_header()?;
+        }''', '''        if self.packet_length.is_none() && self.read_bytes != 3 {
+            self.probe_fixed_header()?;
+        }''')],
+  ["C15/look-ahead/probe"])
